@@ -31,6 +31,17 @@ Theorem C17_left_pad : forall s n,
 Proof. exact left_pad_hex_spec. Qed.
 Print Assumptions C17_left_pad.
 
+(** hex strings become left-padded fixed-width bytes (MustHexPadLeft; refusing by panic is its documented contract) *)
+Theorem C17_must_hex_pad_left : forall s size,
+  (0 <= size < 2 ^ 62)%Z ->
+  must_hex_pad_left s size =
+    (let padded := if (2 * size <=? zlen s)%Z then skipn (length s - Z.to_nat (2 * size)) s
+                   else repeat 48 (Z.to_nat (2 * size) - length s) ++ s in
+     match hex_decode padded with Some b => Ok b | None => Panic end)
+  /\ forall b, must_hex_pad_left s size = Ok b -> Z.of_nat (length b) = size.
+Proof. exact must_hex_pad_left_spec. Qed.
+Print Assumptions C17_must_hex_pad_left.
+
 (** hex timestamps become 8 bytes *)
 Theorem C17_hex_timestamp : forall ts,
   (length ts <= 16)%nat ->
